@@ -73,6 +73,19 @@ def gen_dataset_cfg(rng, flavor='general', big=False):
     cfg['dtypes']['find'] = rng.choice(['uint32', 'int32', 'int64'])
     cfg['dtypes']['tmpl'] = rng.choice(['float32', 'float32', 'float64'])
     cfg['dtypes']['feat'] = rng.choice(['float32', 'float32', 'float64'])
+    cfg['dtypes']['amps'] = rng.choice(['float64', 'float64', 'float32'])
+    cfg['dtypes']['pos'] = rng.choice(['float64', 'float64', 'float32', 'int64'])
+    cfg['dtypes']['wm'] = rng.choice(['float64', 'float64', 'float32'])
+    # size outliers: hidden constants (neighbourhood 12/32, uint8/int16 id ranges, batch sizes)
+    # only matter beyond the usual small sizes
+    r = rng.random()
+    if r < 0.03:
+        cfg['nc'] = nc = rng.choice([13, 33, 40, 65])
+    elif r < 0.05:
+        cfg['nt'] = nt = rng.choice([130, 257, 300])
+        cfg['ns'] = ns = max(ns, 60)
+    elif r < 0.08:
+        cfg['time_offset'] = rng.choice([2 ** 31 + 5, 2 ** 32 + 7, 2 ** 33])
     for fam in ('times', 'stemplates', 'sclusters', 'amps', 'chmap'):
         if rng.random() < 0.3:
             cfg['colvec'].append(fam)
@@ -207,6 +220,10 @@ def build_gt(cfg):
     # spike samples: sorted, with ties sometimes
     isi = rs.randint(0 if cfg['ties'] else 1, 12, size=ns)
     g.samples = np.cumsum(isi).astype(np.int64) + rs.randint(0, 8)
+    if cfg.get('time_offset') and not cfg['present']['raw'] and \
+            cfg['dtypes']['times'] in ('uint64', 'int64'):
+        # a recording that started long ago: sample numbers beyond the 32-bit range
+        g.samples = g.samples + int(cfg['time_offset'])
     used = [t for t in range(nt) if t not in cfg['unused_templates']]
     g.stemplates = np.array([used[i] for i in rs.randint(0, len(used), size=ns)], dtype=np.int64)
     # make sure every "used" template has a spike when possible
@@ -214,7 +231,8 @@ def build_gt(cfg):
     for i, t in enumerate(used[:ns]):
         g.stemplates[perm[i]] = t
     g.sclusters = apply_curation(g.stemplates, g.stemplates, cfg.get('curation') or [])
-    g.amps = np.round(rs.uniform(0.5, 30.0, size=ns), 3)
+    g.amps = np.round(rs.uniform(0.5, 30.0, size=ns), 3).astype(
+        cfg['dtypes'].get('amps', 'float64')).astype(np.float64)
     # channels
     n_dat = nc + (cfg['raw']['extra_channels'] if cfg.get('raw') else 0)
     g.n_channels_dat = n_dat
@@ -225,6 +243,17 @@ def build_gt(cfg):
     g.pos = positions(rs, nc, cfg['geometry'])
     # real probes are millimetres long and need not start at x = 0
     g.pos = g.pos * float(cfg.get('pos_scale', 1)) + np.array([float(cfg.get('x_shift', 0)), 0.])
+    pdt = cfg['dtypes'].get('pos', 'float64')
+    if pdt == 'int64':
+        ipos = np.round(g.pos * 4).astype(np.int64)     # integer coordinates (e.g. in um / 4)
+        if len(set(map(tuple, ipos))) == nc:
+            g.pos = ipos.astype(np.float64)
+            g.pos_dtype = 'int64'
+    elif pdt == 'float32':
+        fpos = g.pos.astype(np.float32)
+        if len(set(map(tuple, fpos))) == nc:
+            g.pos = fpos.astype(np.float64)
+            g.pos_dtype = 'float32'
     g.shanks = (np.arange(nc) * cfg['n_shanks'] // nc).astype(np.int64)
     g.probes = (np.arange(nc) * cfg['n_probes'] // nc).astype(np.int64)
     # templates (whitened space)
@@ -261,6 +290,9 @@ def build_gt(cfg):
         g.tmpl_data = g.templates_dense
         g.tmpl_cols = None
     g.wm = (np.eye(nc) + 0.15 * rs.normal(size=(nc, nc))) if p['wm'] else None
+    if g.wm is not None and cfg['dtypes'].get('wm') == 'float32':
+        g.wm = g.wm.astype(np.float32).astype(np.float64)
+        g.wm_dtype = 'float32'
     g.wmi_file = None
     if p['wmi']:
         g.wmi_file = np.linalg.inv(g.wm) * (1.0 + 0.0)
@@ -445,9 +477,9 @@ def write_dataset(cfg, g, d):
         save(_name(cfg, 'sclusters'), _vec(cfg, 'sclusters', sc.astype(
             'int32' if dts['ids'] == 'uint16' else dts['ids'])))
     if p['amps']:
-        save(_name(cfg, 'amps'), _vec(cfg, 'amps', g.amps))
+        save(_name(cfg, 'amps'), _vec(cfg, 'amps', g.amps.astype(dts.get('amps', 'float64'))))
     save(_name(cfg, 'chmap'), _vec(cfg, 'chmap', g.chmap.astype(dts['chmap'])))
-    save(_name(cfg, 'chpos'), g.pos)
+    save(_name(cfg, 'chpos'), g.pos.astype(getattr(g, 'pos_dtype', 'float64')))
     if p['probes']:
         save(_name(cfg, 'chprobe'), g.probes.astype('int32'))
     if p['shanks']:
@@ -456,7 +488,7 @@ def write_dataset(cfg, g, d):
     if cfg['sparse']:
         save(_name(cfg, 'tmplind'), g.tmpl_cols.astype('int32'))
     if p['wm']:
-        save('whitening_mat.npy', g.wm)
+        save('whitening_mat.npy', g.wm.astype(getattr(g, 'wm_dtype', 'float64')))
     if p['wmi']:
         save('whitening_mat_inv.npy', g.wmi_file)
     if p['similar']:
